@@ -24,8 +24,9 @@ import (
 // or "acc1|acc2 pkg <hex> imp <hex>:<pwo>..." read from the AST (acc2 = parser.ResultFromAST
 // with validation also succeeds). The Lean property oracle compares the two halves.
 //
-// Open finding on the unchanged tree: an import path literal containing ill-formed UTF-8 (the
-// full parser copies the bytes, fastscan's lexer writes U+FFFD) — see PCV/Props/C25.lean.
+// Coupling to watch: an import path literal containing ill-formed UTF-8. Both lexers write
+// U+FFFD today; if only the full parser is changed to copy the bytes the oracle fails
+// (C25_rawbytes_refuted in PCV/Props/C25.lean).
 type fastscanEngine struct{}
 
 func init() { Register("fastscan", func() Engine { return fastscanEngine{} }) }
@@ -992,7 +993,7 @@ var b25Seeds = []string{
 	"\xef\xbb\xbfimport \"bom\";",
 	"\xef\xbb\xbf\xef\xbb\xbfimport \"bom2\";",
 	"\xef\xbbimport \"halfbom\";",
-	"import \"\xff\";", // C25 finding: the full parser keeps the byte, fastscan writes U+FFFD
+	"import \"\xff\";", // both lexers must treat the ill-formed byte alike (C25_rawbytes_refuted)
 	"import \"\xff\xfe\";",
 	"import \"a\xc3\" 'b\xe2\x82';",
 	"option x = \"\xff\"; import \"ok\";",
